@@ -1629,8 +1629,13 @@ class AsyncGraph:
         _verif_point("stop:after_flip")
 
         # Initiate stop (this unblocks the root's step, that is waiting for an action).
-        if len(self._synchronizer.action) > 0:
+        # The flag must be set first: the supervisor thread may enter its next step only after we looked at the
+        # pending actions, in which case there is nothing to cancel yet and it would wait forever (lost wake-up).
+        self._synchronizer._must_reset = True
+        try:
             self._synchronizer.action[-1].cancel()
+        except IndexError:  # No pending action (or it was consumed concurrently).
+            pass
         _verif_point("stop:after_cancel")
 
         # Wait for all nodes to stop
